@@ -345,7 +345,8 @@ def poolmix_family(seed, tier):
             steps.append(step(["m%d" % mi], ins, oo=oo, cmd="mem%d" % mi, pool=pool,
                               eff={"kind": "write", "reads": []}))
         g = graph(steps, pools=[("p", depth)])
-        ops = [manifest_op(g)] + [{"op": "write", "path": f} for f in sources(g)]
+        # (every other scenario writes the steps with one shared rule and per-build `pool = $p`)
+        ops = [manifest_op(g, style={"sharedrule": idx % 2 == 1})] + [{"op": "write", "path": f} for f in sources(g)]
         ops.append(invoke([], j=4))
         for f in dirty:
             ops.append({"op": "write", "path": f})
